@@ -249,6 +249,13 @@ def other_modules(ctx):
         cls = ["EllipsoidART", "GaussianART", "BayesianART", "QuadraticNeuronART", "HypersphereART", "FuzzyART", "ART1", "ART2A"][i % 8]
         d = r.randint(1, 3)
         spec = specs.elem_spec(r, cls, d)
+        if cls == "BayesianART" and r.random() < 0.3:
+            # a covariance whose determinant is below machine epsilon (tight clusters in moderate dimension)
+            d = r.randint(3, 6)
+            spec = specs.elem_spec(r, cls, d)
+            spec["cov_init"] = (np.eye(d) * 2.0 ** -18).tolist()
+            spec["rho"] = 2.0
+            cov.hit("bayes:det-below-eps")
         m = make(spec)
         X = specs.elem_data(r, cls, 10, d, floats=r.random() < 0.5 and cls != "ART1")
         try:
